@@ -90,7 +90,7 @@ class Lock:
 # ---------------------------------------------------------------- Coq build
 # which translators regenerate files that a property's Coq development depends on
 TRANSLATORS_FOR = {
-    "C18": ["translate_serde_shapes.py"],
+    "C18": ["translate_serde_shapes.py"], "C20": ["translate_hash_iter.py"],
     "C12": ["translate_libm.py"], "C06": ["translate_libm.py"], "C07": ["translate_libm.py"],
     "C04": ["translate_unicode.py", "translate_lef_keys.py"], "C05": ["translate_unicode.py", "translate_lef_keys.py"],
     "C11": ["translate_unicode.py", "translate_lef_keys.py"],
